@@ -121,10 +121,29 @@ End Obj.
 Definition obj_select_distance (g : ogst) : list ExtZ :=
   map (fun i => nth i (o_hsel (sst g)) None) (sel g).
 
+(* ---- parameter types of a cold fit (used by sessions and by vor_validate below) ---------- *)
+Inductive ffp := FFNone | FFReal (num den : Z) | FFOther.     (* None | the real num/den (den > 0) | not a real *)
+Inductive ntp := NTInt (z : Z) | NTOther.                     (* n_trial_calculation *)
+Inductive inp := InInt (i : nat) | InRandom | InOther.        (* initialize (non-negative ints) *)
+Inductive verr := ETypeError | EValueError | EIndexError.
+
+(* the switching-point branch of _init_greedy_search: None = accepted *)
+Definition ff_check (ff : ffp) (nt : ntp) : option verr :=
+  match ff with
+  | FFNone => match nt with
+              | NTOther => Some ETypeError
+              | NTInt z => if z <=? 0 then Some EValueError else None
+              end
+  | FFReal num den => if (0 <? num) && (num <=? den) then None else Some EValueError
+  | FFOther => Some EValueError
+  end.
+
 (* ---- sessions: any sequence of fit calls on ONE object ----------------------------------- *)
 Inductive vcall :=
 | VCold (X : list (list Z)) (br : nat -> nat -> bool) (i0 : nat) (p : nts)   (* fit(X) *)
-| VWarm (X : list (list Z)) (br : nat -> nat -> bool) (p : nts).             (* fit(X, warm_start=True) *)
+| VWarm (X : list (list Z)) (br : nat -> nat -> bool) (p : nts)              (* fit(X, warm_start=True) *)
+| VColdFF (X : list (list Z)) (ff : ffp) (nt : ntp)                          (* fit(X) with the switching-point *)
+          (br : nat -> nat -> bool) (i0 : nat) (p : nts).                    (* parameters given explicitly     *)
 
 (* check_array(ensure_min_samples=2, ensure_min_features=2) *)
 Definition shape_ok (X : list (list Z)) : bool :=
@@ -153,6 +172,21 @@ Definition sess_step (s : option ogst) (c : vcall) : option ogst * bool :=
           | Some g =>
               if (k <? length (sel g))%nat then (s, false)   (* np.pad with a negative width  *)
               else (Some (fst (obj_fit_warm X br None g NoThr k)), true)
+          end
+      end
+  | VColdFF X ff nt br i0 p =>
+      (* since /repo ac09377 the switching-point validation of _init_greedy_search comes BEFORE the
+         first attribute is overwritten: a call rejected there leaves the whole object unchanged *)
+      if negb (shape_ok X) then (s, false) else
+      match resolve_n (length X) p with
+      | None => (s, false)
+      | Some k =>
+          match ff_check ff nt with
+          | Some _ => (s, false)                             (* ValueError / TypeError, nothing touched *)
+          | None =>
+              if ((i0 <? length X) && (1 <=? k))%nat
+              then (Some (fst (obj_fit_cold X br None s i0 NoThr k)), true)
+              else (None, false)
           end
       end
   end.
@@ -195,22 +229,6 @@ Fixpoint sess_ok (s : option ogst) (cs : list (vcall * option otrace)) : bool :=
   end.
 
 (* ---- parameter validation of a cold fit (the raising branches of _init_greedy_search) ----- *)
-Inductive ffp := FFNone | FFReal (num den : Z) | FFOther.     (* None | the real num/den (den > 0) | not a real *)
-Inductive ntp := NTInt (z : Z) | NTOther.                     (* n_trial_calculation *)
-Inductive inp := InInt (i : nat) | InRandom | InOther.        (* initialize (non-negative ints) *)
-Inductive verr := ETypeError | EValueError | EIndexError.
-
-(* the switching-point branch of _init_greedy_search: None = accepted *)
-Definition ff_check (ff : ffp) (nt : ntp) : option verr :=
-  match ff with
-  | FFNone => match nt with
-              | NTOther => Some ETypeError
-              | NTInt z => if z <=? 0 then Some EValueError else None
-              end
-  | FFReal num den => if (0 <? num) && (num <=? den) then None else Some EValueError
-  | FFOther => Some EValueError
-  end.
-
 (* None = accepted; the checks in the order the code performs them *)
 Definition vor_validate (n : nat) (p : nts) (ff : ffp) (nt : ntp) (ini : inp) : option verr :=
   match resolve_n n p with
